@@ -243,8 +243,33 @@ def check_decoders(ctx):
     ctx.floor("payload decoders compared with their reference model", n, 6)
 
 
+def check_start_defaults(ctx):
+    """decode(data) without a position decodes from the first byte: every decoder's `start` (and the header decoder's
+    `text_pos`) defaults to 0 - the callers that decode a whole message body give no position."""
+    repo = ctx.repo
+    n = 0
+    for cls in [repo.cls("Base")] + repo.subclasses("Base"):
+        for mname in ("decode", "decode_item_header"):
+            m = cls.methods.get(mname)
+            if m is None:
+                continue
+            args = m.node.args
+            names = [a.arg for a in args.args]
+            dflt = dict(zip(names[len(names) - len(args.defaults):], args.defaults))
+            pos = [a for a in names if a in ("start", "text_pos")]
+            if not pos:
+                continue
+            n += 1
+            ctx.touch(m)
+            d = dflt.get(pos[0])
+            ok = d is not None and isinstance(d, ast.Constant) and d.value == 0 and not isinstance(d.value, bool)
+            ctx.ob("C02.B2", m.qualname, ok, f"`{pos[0]}` defaults to 0" if ok else f"`{pos[0]}` defaults to {norm(d) if d is not None else 'nothing'}: decoding a body without a position skips or misreads its first byte", key="start-default", where=m.where)
+    ctx.floor("decoders with a start position", n, 8)
+
+
 def run(ctx):
     check_decoders(ctx)
+    check_start_defaults(ctx)
     _items.check_header_decode(ctx, "C02.B2", "Base", "decode_item_header", "variables")
     check_dynamic(ctx)
     n = _items.check_numeric_table(ctx, "C02.T2", NUMERIC, VAR_ATTRS)
